@@ -134,8 +134,8 @@ func runC18(c *Ctx) {
 		r.Guard("C18-G2", u, app, "!ok", an.GuardOpts{Min: 1})
 		okd := u.Match(an.LocalStore("ok"))
 		r.Check("C18-G2", "GetISR: membership is tested in Removings", "", len(okd) == 1 && okd[0].Tuple != nil && u.C.Term(okd[0].Tuple) == "recv.Removings[v]", "")
-		rng := u.Match(an.M{}.Range())
-		r.Check("C18-G2", "GetISR: ranges over RaftNodes", "", len(rng) == 1 && u.C.Term(rng[0].Rng.X) == "recv.RaftNodes", "")
+		lc := u.LoopCollections() // either loop form
+		r.Check("C18-G2", "GetISR: ranges over RaftNodes", "", len(lc) == 1 && lc[0] == "recv.RaftNodes", fmt.Sprint(lc))
 	}
 
 	// G4: MaxRaftID and RaftIDs
@@ -207,12 +207,18 @@ func tupleVars(u *an.Unit, callee string) []string {
 
 func loopOf(u *an.Unit, s *an.Site) *ast.ForStmt {
 	var best *ast.ForStmt
-	ast.Inspect(u.Body, func(n ast.Node) bool {
-		if f, ok := n.(*ast.ForStmt); ok && f.Pos() <= s.Pos && s.Pos < f.End() {
-			best = f
-		}
-		return true
-	})
+	bodies := []ast.Node{u.Body}
+	for _, ic := range u.G.Inlined {
+		bodies = append(bodies, ic.Decl.Body) // helpers read in place of their calls
+	}
+	for _, body := range bodies {
+		ast.Inspect(body, func(n ast.Node) bool {
+			if f, ok := n.(*ast.ForStmt); ok && f.Pos() <= s.Pos && s.Pos < f.End() {
+				best = f
+			}
+			return true
+		})
+	}
 	return best
 }
 
